@@ -7,11 +7,14 @@ package lindrv
 import (
 	"fmt"
 	"math/rand"
+	"runtime"
 	"sort"
+	"strings"
 	"sync"
 	"sync/atomic"
 	"time"
 
+	"github.com/openconfig/gribigo/aft"
 	"github.com/openconfig/gribigo/constants"
 	"github.com/openconfig/gribigo/rib"
 	"github.com/openconfig/ygot/ygot"
@@ -59,7 +62,9 @@ type Event struct {
 	Ops       []Op                `json:"ops"`
 	Final     map[string][]uint64 `json:"final"`
 	Completed bool                `json:"completed"`
-	Overlap   int                 `json:"overlap"` // adds acknowledged while the Flush was paused
+	// Mirror: the next-hop keys per instance obtained by folding the post-change notifications (ADD / DELETE)
+	Mirror  map[string][]uint64 `json:"mirror"`
+	Overlap int                 `json:"overlap"` // adds acknowledged while the Flush was paused
 }
 
 func nhOp(id uint64, ni string, idx uint64) *spb.AFTOperation {
@@ -88,7 +93,7 @@ func contents(r *rib.RIB, nis []string) (map[string][]uint64, error) {
 
 // Run executes one scenario.
 func Run(n int, sc Scenario) (Event, error) {
-	ev := Event{Ev: "lin", N: n, FlushNIs: sc.FlushNIs, PauseNI: sc.PauseNI, Ops: []Op{}, Final: map[string][]uint64{}, Initial: map[string][]uint64{}}
+	ev := Event{Ev: "lin", N: n, FlushNIs: sc.FlushNIs, PauseNI: sc.PauseNI, Ops: []Op{}, Final: map[string][]uint64{}, Initial: map[string][]uint64{}, Mirror: map[string][]uint64{}}
 	r := rib.New(sc.NIs[0])
 	for _, ni := range sc.NIs[1:] {
 		if err := r.AddNetworkInstance(ni); err != nil {
@@ -116,11 +121,14 @@ func Run(n int, sc Scenario) (Event, error) {
 	var ackedInPause atomic.Int64
 	paused := atomic.Bool{}
 
+	var running atomic.Int32
 	startAdders := func() {
 		for ai, prog := range sc.Progs {
 			wg.Add(1)
+			running.Add(1)
 			go func(ai int, prog []Target) {
 				defer wg.Done()
+				defer running.Add(-1)
 				for i, t := range prog {
 					o := Op{K: "add", NIs: []string{}, NI: t.NI, Key: t.Key, Who: fmt.Sprintf("a%d.%d", ai+1, i+1)}
 					if t.Flush != nil {
@@ -148,7 +156,28 @@ func Run(n int, sc Scenario) (Event, error) {
 		}
 	}
 
-	r.SetPostChangeHook(func(op constants.OpType, _ int64, ni string, _ ygot.ValidatedGoStruct) {
+	var mmu sync.Mutex
+	mirror := map[string]map[uint64]bool{}
+	for ni, ks := range ev.Initial {
+		mirror[ni] = map[uint64]bool{}
+		for _, k := range ks {
+			mirror[ni][k] = true
+		}
+	}
+	r.SetPostChangeHook(func(op constants.OpType, _ int64, ni string, data ygot.ValidatedGoStruct) {
+		if nh, ok := data.(*aft.Afts_NextHop); ok && nh != nil && nh.Index != nil {
+			mmu.Lock()
+			if mirror[ni] == nil {
+				mirror[ni] = map[uint64]bool{}
+			}
+			switch op {
+			case constants.Add:
+				mirror[ni][*nh.Index] = true
+			case constants.Delete:
+				delete(mirror[ni], *nh.Index)
+			}
+			mmu.Unlock()
+		}
 		if op != constants.Delete || ni != sc.PauseNI {
 			return
 		}
@@ -161,6 +190,20 @@ func Run(n int, sc Scenario) (Event, error) {
 			select {
 			case <-done:
 			case <-time.After(sc.Pause):
+				// resume only when every adder that has not returned is parked on a lock of the RIB: none of them may be
+				// between an install and its notification (the notification of an install is delivered after the lock
+				// is released - see the directed scenario RunHookOrder)
+				for dl := time.Now().Add(2 * time.Second); time.Now().Before(dl); time.Sleep(500 * time.Microsecond) {
+					select {
+					case <-done:
+					default:
+						if running.Load() == int32(lockWaiters()) {
+							break
+						}
+						continue
+					}
+					break
+				}
 			}
 			paused.Store(false)
 		})
@@ -196,6 +239,16 @@ func Run(n int, sc Scenario) (Event, error) {
 	if ev.Final, err = contents(r, sc.NIs); err != nil {
 		return ev, err
 	}
+	mmu.Lock()
+	for _, ni := range sc.NIs {
+		ks := []uint64{}
+		for k := range mirror[ni] {
+			ks = append(ks, k)
+		}
+		sort.Slice(ks, func(i, j int) bool { return ks[i] < ks[j] })
+		ev.Mirror[ni] = ks
+	}
+	mmu.Unlock()
 	return ev, nil
 }
 
@@ -233,6 +286,13 @@ func Directed() []Scenario {
 				out = append(out, Scenario{NIs: nis, FlushNIs: nis, PauseNI: pause, Pause: 15 * time.Millisecond,
 					Progs: [][]Target{{{NI: first, Key: 100}, {NI: second, Key: 200}}}})
 			}
+		}
+	}
+	// re-ADD of the key the Flush is removing (key 1 is installed in every instance): the notifications must tell the same story
+	for _, pause := range nis {
+		for _, target := range nis {
+			out = append(out, Scenario{NIs: nis, FlushNIs: nis, PauseNI: pause, Pause: 15 * time.Millisecond,
+				Progs: [][]Target{{{NI: target, Key: 1}}, {{NI: target, Key: 100}}}})
 		}
 	}
 	// a second Flush of all instances issued while the first one is paused in each of them (lock order between Flushes)
@@ -477,5 +537,99 @@ func RunRef(n int, mode string, replaces int) RefEvent {
 		}
 	}
 	<-done
+	return ev
+}
+
+// lockWaiters counts the goroutines of this package's adders that are parked acquiring a lock of the rib package.
+func lockWaiters() int {
+	buf := make([]byte, 1<<20)
+	buf = buf[:runtime.Stack(buf, true)]
+	n := 0
+	for _, g := range strings.Split(string(buf), "\n\n") {
+		if strings.Contains(g, "lindrv.Run.func") && strings.Contains(g, "gribigo/rib.") &&
+			(strings.Contains(g, "sync.(*RWMutex).Lock") || strings.Contains(g, "sync.(*RWMutex).RLock") || strings.Contains(g, "sync.(*Mutex).Lock")) {
+			n++
+		}
+	}
+	return n
+}
+
+// ---------------------------------------------------------------------------
+// The order of notifications between an install and a Flush: the notification of an install is delivered after the
+// instance lock has been released, that of a Flush removal while it is held. A consumer whose ADD notification is in
+// flight when a Flush of that instance runs sees DELETE k before ADD k, and ends with k although the RIB is empty.
+
+// HookEvent is the record of the directed notification-order scenario.
+type HookEvent struct {
+	Ev     string   `json:"ev"`
+	Mirror []uint64 `json:"mirror"`
+	Final  []uint64 `json:"final"`
+	Failed string   `json:"failed"`
+}
+
+// RunHookOrder executes the scenario.
+func RunHookOrder() HookEvent {
+	ev := HookEvent{Ev: "linhook", Mirror: []uint64{}, Final: []uint64{}}
+	r := rib.New("DEFAULT")
+	var mu sync.Mutex
+	mirror := map[uint64]bool{}
+	inAdd, release := make(chan struct{}), make(chan struct{})
+	var once sync.Once
+	r.SetPostChangeHook(func(op constants.OpType, _ int64, _ string, d ygot.ValidatedGoStruct) {
+		n, ok := d.(*aft.Afts_NextHop)
+		if !ok || n == nil || n.Index == nil {
+			return
+		}
+		if op == constants.Add && *n.Index == 7 {
+			once.Do(func() { close(inAdd); <-release }) // the consumer is slow to take this notification
+		}
+		mu.Lock()
+		switch op {
+		case constants.Add:
+			mirror[*n.Index] = true
+		case constants.Delete:
+			delete(mirror, *n.Index)
+		}
+		mu.Unlock()
+	})
+	added := make(chan struct{})
+	go func() { r.AddEntry("DEFAULT", nhOp(1, "DEFAULT", 7)); close(added) }()
+	select {
+	case <-inAdd:
+	case <-time.After(5 * time.Second):
+		ev.Failed = "the ADD notification was never delivered"
+		return ev
+	}
+	fl := make(chan error, 1)
+	go func() { fl <- r.Flush([]string{"DEFAULT"}) }()
+	select {
+	case err := <-fl:
+		if err != nil {
+			ev.Failed = "flush: " + err.Error()
+		}
+	case <-time.After(5 * time.Second):
+		// the Flush waits for the notification to be taken: that order is consistent
+	}
+	close(release)
+	<-added
+	select {
+	case <-fl:
+	case <-time.After(5 * time.Second):
+		ev.Failed = "the Flush did not return"
+	default:
+	}
+	time.Sleep(2 * time.Millisecond)
+	fin, err := contents(r, []string{"DEFAULT"})
+	if err != nil {
+		ev.Failed = err.Error()
+		return ev
+	}
+	ev.Final = fin["DEFAULT"]
+	mu.Lock()
+	for k := range mirror {
+		ev.Mirror = append(ev.Mirror, k)
+	}
+	mu.Unlock()
+	sort.Slice(ev.Mirror, func(i, j int) bool { return ev.Mirror[i] < ev.Mirror[j] })
 	return ev
 }
